@@ -7,3 +7,8 @@ Local Open Scope N_scope.
 Definition run_script_segments (p : program) (cap : N) (init : list ievent) (bs : list N) : list sresult :=
   let '(hs, en, _, _) := script_start cap init in
   run_segments s_time s_sec (script_handler p) bs (script_fuel cap init) hs en.
+
+(** the same after SetCurrentTime(t0) (see C01/Model.v [run_script_at]) *)
+Definition run_script_segments_at (p : program) (cap : N) (init : list ievent) (t0 : N) (bs : list N) : list sresult :=
+  let '(hs, en, _, _) := script_start cap init in
+  run_segments s_time s_sec (script_handler p) bs (script_fuel cap init) hs (set_current_time en t0).
